@@ -271,12 +271,130 @@ def panic_audit(ctx, rule, fns, exceptions=None):
     return n
 
 
-def reach_fns(ctx, entries, crates, rule=None):
-    """Functions (in `crates`) reachable from entry keys (exact or generic-stripped)."""
+def reach_fns(ctx, entries, crates, rule=None, stop=None):
+    """Functions (in `crates`) reachable from entry keys (exact or generic-stripped).  Functions whose
+    generic-stripped key matches `stop` are neither included nor expanded."""
     keys = []
     for e in entries:
         f = ctx.fn(rule or "REACH", e) if isinstance(e, str) else e
         if f is not None:
             keys.append(f.key)
-    seen = ctx.prog.reach(keys, crates=set(crates))
-    return [ctx.prog.fns[k] for k in seen if k in ctx.prog.fns and ctx.prog.fns[k].crate in crates]
+    rx = re.compile(stop) if stop else None
+    g = ctx.prog.callgraph()
+    seen = set()
+    work = list(keys)
+    while work:
+        k = work.pop()
+        if k in seen:
+            continue
+        f = ctx.prog.fns.get(k)
+        if f is None or f.crate not in crates:
+            continue
+        if rx is not None and rx.search(f.skey):
+            continue
+        seen.add(k)
+        for n in g.get(k, ()):
+            if n not in seen:
+                work.append(n)
+    return [ctx.prog.fns[k] for k in sorted(seen)]
+
+
+CMP_OPS = ("Eq", "Ne", "Lt", "Le", "Gt", "Ge")
+
+
+def compare_guards(fn, pt, user_only=True):
+    """Comparison guards dominating pt: [{'bb','lab','op','a','b','line','holds'}] where `holds`
+    says whether the comparison is true (True) or false (False) on the dominating edge."""
+    out = []
+    for bb, lab, srcs in guards(fn, pt):
+        for s in srcs:
+            if s["k"] == "bin" and s["op"] in CMP_OPS:
+                st = s["st"]
+                if user_only and st["sp"][3]:
+                    continue
+                # count logical negations between the comparison and the switch
+                negs = sum(1 for x in srcs if x["k"] == "un" and x["op"] == "Not")
+                holds = (lab != "sw:0")
+                if negs % 2:
+                    holds = not holds
+                out.append({"bb": bb, "lab": lab, "op": s["op"], "a": st["rv"]["a"], "b": st["rv"]["b"],
+                            "line": st["sp"][1], "holds": holds, "st": st})
+    return out
+
+
+def call_guards(fn, pt, pat):
+    """Guards dominating pt whose switch discriminant derives from a call matching pat."""
+    rx = re.compile(pat)
+    out = []
+    for bb, lab, srcs in guards(fn, pt):
+        for s in srcs:
+            if s["k"] == "call" and rx.search(s["callee"]):
+                out.append({"bb": bb, "lab": lab, "callee": s["callee"], "t": s["t"], "pt": s["pt"]})
+    return out
+
+
+def src_names(fn, op):
+    """A coarse description of where an operand comes from: field names, constants, call names."""
+    names = set()
+    for s in P.origins(fn, op):
+        if s["k"] == "field":
+            names.add("." + s["f"])
+        elif s["k"] == "const" and "v" in s:
+            names.add("#%d" % s["v"])
+            if s.get("named"):
+                names.add("#" + s["named"].rsplit("::", 1)[-1])
+        elif s["k"] == "call":
+            names.add(s["callee"].rsplit("::", 1)[-1] + "()")
+        elif s["k"] == "param":
+            names.add("param%d" % s["i"])
+    return names
+
+
+def equal_edge_guard(fn, pt, a_pred, b_pred):
+    """pt is dominated by the *equal* edge of an Eq/Ne comparison (or PartialEq::eq/ne call) whose two
+    operands satisfy a_pred / b_pred (in either order).  Returns the guard or None."""
+    for g in compare_guards(fn, pt):
+        if g["op"] not in ("Eq", "Ne"):
+            continue
+        equal = g["holds"] if g["op"] == "Eq" else not g["holds"]
+        if not equal:
+            continue
+        na, nb = src_names(fn, g["a"]), src_names(fn, g["b"])
+        if (a_pred(na) and b_pred(nb)) or (a_pred(nb) and b_pred(na)):
+            return g
+    for bb, lab, srcs in guards(fn, pt):
+        for s in srcs:
+            if s["k"] == "call" and re.search(r"PartialEq.*>::(eq|ne)$|::(eq|ne)$", s["callee"]):
+                name = s["callee"].rsplit("::", 1)[-1]
+                negs = sum(1 for x in srcs if x["k"] == "un" and x["op"] == "Not")
+                holds = (lab != "sw:0")
+                if negs % 2:
+                    holds = not holds
+                equal = holds if name == "eq" else not holds
+                if not equal:
+                    continue
+                t = s["t"]
+                if len(t["args"]) < 2:
+                    continue
+                na, nb = src_names(fn, t["args"][0]), src_names(fn, t["args"][1])
+                if (a_pred(na) and b_pred(nb)) or (a_pred(nb) and b_pred(na)):
+                    return {"bb": bb, "lab": lab, "op": name, "line": t["sp"][1]}
+    return None
+
+
+def has(*names):
+    def pred(ns):
+        return all(n in ns for n in names)
+    return pred
+
+
+def callers_of(ctx, pat, crates=None):
+    """{caller skey: [points]} of calls whose resolved/declared callee matches pat."""
+    out = {}
+    for f in ctx.prog.fns.values():
+        if crates is not None and f.crate not in crates:
+            continue
+        pts = P.call_points(f, pat)
+        if pts:
+            out[f.skey] = (f, pts)
+    return out
